@@ -160,8 +160,8 @@ def named_files(tier):
             continue
         for mc in ("preserve", "upper", "lower"):
             for v12 in (False, True):
-                if v12:
-                    continue  # 1.2 ~W layout swaps value and description; covered by C03/C12
+                if v12 and mc != "preserve":
+                    continue  # LAS 1.2 (value after the colon in ~W): one mnemonic_case is enough
                 yield {"file": 1, "s": s, "mnemonic_case": mc, "v12": v12}
     # 1/50 sample of the short-string space
     for i, c in enumerate(strings("quick" if tier == "quick" else "quick")):
